@@ -100,7 +100,7 @@ func runC01(c C01Case, cs *kit.CaseStats) error {
 	known := func(id types.BlockID) bool { _, ok := node.CM.State(id); return ok }
 
 	for si, st := range c.Steps {
-		nodes, blocks, states, validated := tr.ResolveBatch(st, known)
+		nodes, blocks, states, validated := tr.ResolveBatch(st, node.ValidatedParent)
 		if len(blocks) == 0 {
 			continue
 		}
